@@ -14,6 +14,7 @@
     kinds copy (the correspondence stream exercises all five).
 -/
 import CometProofs.Pipeline
+import CometProofs.AggNodup
 namespace Comet.Pipeline
 
 variable {V S : Type}
@@ -303,6 +304,55 @@ theorem multi_query_is_aggregate (m : Metric V S) (s : State V) (qs : List V)
                            else vecAggregate m.sc agg per.flatten)) := by
   have hne : qs.isEmpty = false := by cases qs <;> simp_all
   simp [execute, hne, hper, List.mapM_nil, bind, Except.bind, pure, Except.pure]
+
+/-! ### the public `Execute` for one query: aggregation and limiting change nothing -/
+
+/-- With one query, `Execute` (search, aggregate, limit) returns the single-query answer
+    itself — hence an exact top-k of the live, eligible, within-threshold vectors (C01) —
+    when reducing ONE score is the identity (`0 + d = d`, `d / 1 = d`: exact arithmetic; for
+    IEEE floats it holds bit for bit except that `0 + (−0) = +0`, and distances are never −0)
+    and the stored ids are distinct. -/
+theorem flat_execute_single_exact (m : Metric V S) [DecidableEq S] (ord : m.sc.Ordered)
+    (dim : Nat) (ops : List (Op V))
+    (hn : ((run m (init dim) ops).vecs.map (·.1)).Nodup)
+    (q q' : V) (k : Int) (thr : S) (F : List Id) (agg : AggKind)
+    (hred : ∀ d : S, reduceVec m.sc agg [d] = d)
+    (hq : m.dimOf q = dim) (hpre : m.pre q = some q') :
+    ∃ res, execute m (run m (init dim) ops) [q] [] k thr F agg = .ok res ∧
+      searchSingle m (run m (init dim) ops) q k thr F = .ok res ∧
+      IsTopK m.sc.le k (cands m (live m dim ops) q' thr F) res := by
+  obtain ⟨res, hres, hsound⟩ := flat_sound m ord dim ops hn q q' k thr F hq hpre
+  have hd : (run m (init dim) ops).dim = dim := by rw [run_dim]; rfl
+  have htop : IsTopK m.sc.le k (cands m (live m dim ops) q' thr F) res := by
+    have h1 := searchSingle_eq m (run m (init dim) ops) q q' k thr F (by rw [hd]; exact hq) hpre
+    rw [h1] at hres
+    injection hres with hres
+    subst hres
+    rw [scan_eq_cands, eff_run_init m dim ops]
+    exact selectK_isTopK m.sc.le ord.total ord.trans k _
+  refine ⟨res, ?_, hres, htop⟩
+  have hagg : (if res.isEmpty then res else vecAggregate m.sc agg res) = res := by
+    split
+    · rfl
+    · exact vecAggregate_id m.sc agg res hsound.distinct hred hsound.sorted
+  have hlim : limitResults k res = res := by
+    unfold limitResults
+    apply List.take_of_length_le
+    have hl := htop.len
+    rw [hl]
+    unfold sanitizeK
+    repeat' split
+    all_goals omega
+  have hagg' : (if res = [] then res else vecAggregate m.sc agg res) = res := by
+    by_cases he : res = []
+    · simp [he]
+    · simp only [he, if_false]
+      have : res.isEmpty = false := by cases res <;> simp_all
+      simpa [this] using hagg
+  simp only [execute, hres, List.mapM_cons, List.mapM_nil, bind, Except.bind, pure, Except.pure,
+    List.isEmpty_cons, List.isEmpty_nil, Bool.false_and, List.append_nil,
+    List.flatten_cons, List.flatten_nil, List.isEmpty_iff]
+  simp [hagg', hlim]
 
 /-! ### flushing soft-deleted vectors never changes a flat answer -/
 
